@@ -262,14 +262,37 @@ func probeNK(a nkArg) (string, string) {
 
 // ---- probe 3: text grammar
 type txArg struct {
-	In mc.Bin `json:"in"`
+	In   mc.Bin  `json:"in"`
+	Prev *mc.Bin `json:"previous_call,omitempty"` // history of depth 2: parsed first, on the buffer that is then reused for In
+	Via  int     `json:"previous_via,omitempty"`  // the single previous call: 0 DefaultParser[[]byte] on the shared buffer, 1 DefaultParser[string], 2 UnmarshalText on the shared buffer
 }
 
 func probeTX(a txArg) (string, string) {
 	e := oracle.SizeText(string(a.In))
-	g1, e1 := size.DefaultParser(string(a.In), 0)
 	cp := append([]byte(nil), a.In...)
-	g2, e2 := size.DefaultParser(cp, 0)
+	if a.Prev != nil {
+		buf := make([]byte, 0, 256)
+		buf = append(buf, *a.Prev...)
+		switch a.Via {
+		case 0:
+			_, _ = size.DefaultParser(buf, 0)
+		case 1:
+			_, _ = size.DefaultParser(string(*a.Prev), 0)
+		default:
+			var s size.Size
+			_ = s.UnmarshalText(buf)
+		}
+		cp = append(buf[:0], a.In...) // the same backing array, overwritten in place
+	}
+	var g1, g2 size.Size
+	var e1, e2 error
+	if a.Prev != nil { // history: the reused buffer is parsed first, directly after the previous call
+		g2, e2 = size.DefaultParser(cp, 0)
+		g1, e1 = size.DefaultParser(string(a.In), 0)
+	} else {
+		g1, e1 = size.DefaultParser(string(a.In), 0)
+		g2, e2 = size.DefaultParser(cp, 0)
+	}
 	var u size.Size = 4242
 	e3 := u.UnmarshalText(cp)
 	if e3 != nil {
@@ -526,6 +549,27 @@ func main() {
 			})
 		})
 		r.Sample("new_kind", nkArg{"float64", "18446744073709551616", ""})
+		r.Phase("New[N]: every value of int8, uint8, int16, uint16, myI16 x 21 units; float32/float64 k/8 for k in -64..4096 x 21 units", "complete sweeps", func() {
+			r.Parallel(65536, 256, func(w *mc.W, i int64) {
+				for _, u := range allU {
+					w.Points(3)
+					pNK.Do(w, nkArg{"uint16", fmt.Sprint(i), u})
+					pNK.Do(w, nkArg{"int16", fmt.Sprint(i - 32768), u})
+					pNK.Do(w, nkArg{"myI16", fmt.Sprint(i - 32768), u})
+					if i < 256 {
+						w.Points(2)
+						pNK.Do(w, nkArg{"uint8", fmt.Sprint(i), u})
+						pNK.Do(w, nkArg{"int8", fmt.Sprint(i - 128), u})
+					}
+					if i <= 4160 {
+						w.Points(2)
+						f := fmt.Sprint(float64(i-64) / 8)
+						pNK.Do(w, nkArg{"float64", f, u})
+						pNK.Do(w, nkArg{"float32", f, u})
+					}
+				}
+			})
+		})
 		// grammar generated texts
 		seps := []string{"", " ", "_", " ", "  ", " _", "_ ", "\xa0", "  ", "__"}
 		lead := []string{"", " ", "  "}
@@ -565,11 +609,25 @@ func main() {
 					if e.Class == oracle.SAccept {
 						w.NonTrivial()
 					}
-					pTX.Do(w, txArg{mc.Bin(s)})
+					pTX.Do(w, txArg{In: mc.Bin(s)})
 				})
 			}
 		})
-		r.Sample("text", txArg{" 1_024 KiB  "})
+		r.Sample("text", txArg{In: " 1_024 KiB  "})
+		r.Phase("serial: all histories of two text-parser calls over 30 texts (the second call is judged; the caller reuses one buffer)", "complete for depth 2 over the listed texts", func() {
+			texts := []string{"1", "2", "10", "1kB", "1KiB", "2KiB", "1 KiB", "1KiB ", "1 024 KiB", "1 024 MiB", "16EiB", "17EiB", "0ZB", "1ZB", "1XB", "", " ", "kB", "-1", "1.5", "18446744073709551615", "18446744073709551616", "1_000", "1_001", "007", "7", "1kb", "1 kB", "1  kB", "12B"}
+			r.Serial(func(w *mc.W) {
+				for _, x := range texts {
+					for _, y := range texts {
+						for via := 0; via < 3; via++ {
+							w.Point()
+							px := mc.Bin(x)
+							pTX.Do(w, txArg{In: mc.Bin(y), Prev: &px, Via: via})
+						}
+					}
+				}
+			})
+		})
 		// all short strings over a symbol alphabet
 		syms := []string{"0", "1", "9", " ", "_", " ", "k", "B", "K", "i", "-", "."}
 		maxL := 6
@@ -592,7 +650,7 @@ func main() {
 				if e.Class == oracle.SAccept {
 					w.NonTrivial()
 				}
-				pTX.Do(w, txArg{mc.Bin(s)})
+				pTX.Do(w, txArg{In: mc.Bin(s)})
 			})
 		})
 		// long numbers
@@ -604,10 +662,41 @@ func main() {
 					if oracle.SizeText(string(m)).Class == oracle.SAccept {
 						w.NonTrivial()
 					}
-					pTX.Do(w, txArg{mc.Bin(m)})
+					pTX.Do(w, txArg{In: mc.Bin(m)})
 				}
 				f([]byte(bases[i]))
 				mc.Mutations1([]byte(bases[i]), mc.AllBytes, f)
+			})
+		})
+		r.Phase("long texts within the length limit: zero-padded digit runs of every length, long separator runs, separators between every digit", "complete grid", func() {
+			r.Parallel(127, 1, func(w *mc.W, k int64) {
+				do := func(s string) {
+					if len(s) > 128 {
+						return
+					}
+					w.Point()
+					if oracle.SizeText(s).Class == oracle.SAccept {
+						w.NonTrivial()
+					}
+					pTX.Do(w, txArg{In: mc.Bin(s)})
+				}
+				z := strings.Repeat("0", int(k))
+				for _, tail := range []string{"", "1", "12", "1234", "18446744073709551615", "18446744073709551616", "25 kB", "7KiB", "16EiB", "17EiB", "9 9", "1ZB"} {
+					do(z + tail)
+					do(" " + z + tail + " ")
+				}
+				for _, sep := range []string{" ", "_", "\u00a0", " _"} {
+					do("1" + strings.Repeat(sep, int(k)) + "kB")
+					do("1" + strings.Repeat(sep, int(k)) + "2")
+					do(strings.Repeat(" ", int(k)) + "5B" + strings.Repeat(" ", int(k)/2))
+					var sb strings.Builder
+					for i := 0; i < int(k) && i < 20; i++ {
+						sb.WriteString(string(rune('0' + (i+1)%10)))
+						sb.WriteString(sep)
+					}
+					do(sb.String() + "B")
+					do(sb.String())
+				}
 			})
 		})
 		// Bytes[N]
